@@ -16,7 +16,7 @@ tvars == <<base, faults, l, net, valid, impl, viol, stats>>
 
 TInit == /\ base = "" /\ faults = <<>> /\ l = 1 /\ net = <<>> /\ valid = FALSE /\ impl = "rejected" /\ viol = <<>>
          /\ stats = [cases |-> 0, loads |-> 0, accepted |-> 0, rejected |-> 0, panics |-> 0, drift |-> 0,
-                     valid_cases |-> 0, legacy |-> 0, legacy_both |-> 0]
+                     valid_cases |-> 0, legacy |-> 0, legacy_both |-> 0, harness_err |-> 0]
 
 Names(checks) == LET Fl == SelectSeq(checks, LAMBDA c : ~c[2]) IN [i \in 1..Len(Fl) |-> Fl[i][1]]
 Report(names) == viol' = viol \o [i \in 1..Len(names) |-> <<l, Rec[l].case, names[i]>>]
@@ -54,7 +54,8 @@ Panic == /\ Rec[l].ev \in {"panic", "abort", "timeout"}
          /\ UNCHANGED <<net, valid, impl, stats>>
 
 End == /\ Rec[l].ev = "end"
-       /\ UNCHANGED <<net, valid, impl, viol, stats>>
+       /\ stats' = [stats EXCEPT !.harness_err = @ + (IF Rec[l].result = "harness_err" THEN 1 ELSE 0)]
+       /\ UNCHANGED <<net, valid, impl, viol>>
 
 TNext == /\ l <= Len(Rec) /\ l' = l + 1 /\ UNCHANGED <<base, faults>>
          /\ (Begin \/ Load \/ Legacy \/ Panic \/ End)
